@@ -600,13 +600,26 @@ func (t *Transport) gsReqRecdHook(p peer.ID, request graphsync.RequestData, hook
 
 		log.Debugf("%s: received request for data (pull), req_id=%d", chid, request.ID())
 
+		dtRequest := msg.(datatransfer.Request)
+		if dtRequest.IsCancel() {
+			// A cancel is not a request for data. The events handler cleans
+			// up the channel synchronously (CleanupChannel takes the channel
+			// lock), so it is processed without holding that lock, and the
+			// graphsync request is terminated.
+			_, err := t.events.OnRequestReceived(chid, dtRequest)
+			if err == nil {
+				err = errors.New("data transfer channel cancelled")
+			}
+			hookActions.TerminateWithError(err)
+			return
+		}
+
 		// Lock the channel for the duration of this method
 		ch = t.trackDTChannel(chid)
 		ch.lk.Lock()
 		defer ch.lk.Unlock()
 
-		request := msg.(datatransfer.Request)
-		responseMessage, err = t.events.OnRequestReceived(chid, request)
+		responseMessage, err = t.events.OnRequestReceived(chid, dtRequest)
 	} else {
 		// when a data transfer response comes in on graphsync, this node
 		// initiated a push, and the remote peer responded with a request
